@@ -61,23 +61,25 @@ def check_python(report, table):
     m = pm()
     mm = m.func("gapic.schema.api.API.mixin_api_methods")
     p = mm.module.path
+    from .common_rules import stmt_guards
     conds = {}
-    for n in mm.node.body:
-        if isinstance(n, ast.If):
-            c = [x for x in calls(n) if ast.unparse(x.func) == "self._get_methods_from_service"]
-            if c:
-                conds[ast.unparse(c[0].args[0])] = ast.unparse(n.test)
-    exp = {"locations_pb2": ["self.has_location_mixin"], "operations_pb2": ["self.has_operations_mixin"],
-           "iam_policy_pb2": ["not self._has_iam_overrides and self.has_iam_mixin", "self.has_iam_mixin and (not self._has_iam_overrides)"]}
+    for guards, st in stmt_guards(mm.node):
+        for x in ast.walk(st):
+            if isinstance(x, ast.Call) and ast.unparse(x.func) == "self._get_methods_from_service" and x.args:
+                conds[ast.unparse(x.args[0])] = sorted(g for g in guards if g[0] != "for")
+    exp = {"locations_pb2": [("self.has_location_mixin", True)], "operations_pb2": [("self.has_operations_mixin", True)],
+           "iam_policy_pb2": [("self._has_iam_overrides", False), ("self.has_iam_mixin", True)]}
     for k, v in exp.items():
-        r1.instance(f"{k} under {v[0]}")
-        r1.check(conds.get(k) in v, p, mm.node.lineno, f"{k} merged under `{conds.get(k)}`", f"methods of {k} must be exposed exactly under `{v[0]}`")
+        r1.instance(f"{k} under {v}")
+        r1.check(conds.get(k) == sorted(v), p, mm.node.lineno, f"{k} merged under {conds.get(k)}", f"methods of {k} must be exposed exactly under {v}")
     for prop, api_name in (("has_location_mixin", "google.cloud.location.Locations"), ("has_iam_mixin", "google.iam.v1.IAMPolicy"),
                            ("has_operations_mixin", "google.longrunning.Operations")):
         f = m.func(f"gapic.schema.api.API.{prop}")
-        consts = [c.value for c in ast.walk(f.node) if isinstance(c, ast.Constant) and isinstance(c.value, str) and c.value.startswith("google.")]
+        from ..pymodel import nmatch
+        bb = nmatch(m, "any((_X_.name == _ANYN_ for _X_ in self.service_yaml_config.apis))", f)
+        consts = [bb["_ANYN_"]] if bb else []
         r1.instance(prop)
-        r1.check(consts == [api_name] and "self.service_yaml_config.apis" in ast.unparse(f.node), p, f.node.lineno, f"{prop}: {consts}",
+        r1.check(consts == [repr(api_name)], p, f.node.lineno, f"{prop}: {consts}",
                  f"{prop} must test that `{api_name}` is listed under `apis` in the service YAML")
     gm = m.func("gapic.schema.api.API._get_methods_from_service")
     SP = gm.node.args.args[1].arg
@@ -118,11 +120,15 @@ def check_python(report, table):
 def guard_names(ts: TemplateSet, name: str):
     out = []
     tree = ts.parse(name)
+    # `{% set x = api.mixin_api_methods %}` aliases
+    aliases = {a_.target.name for a_ in tree.find_all(nodes.Assign) if isinstance(a_.target, nodes.Name) and isinstance(a_.node, nodes.Getattr)
+               and a_.node.attr == "mixin_api_methods" and isinstance(a_.node.node, nodes.Name) and a_.node.node.name == "api"}
     for n in tree.find_all(nodes.If):
         t = n.test
-        if isinstance(t, nodes.Compare) and len(t.ops) == 1 and t.ops[0].op == "in" and isinstance(t.expr, nodes.Const) \
-                and isinstance(t.ops[0].expr, nodes.Getattr) and t.ops[0].expr.attr == "mixin_api_methods":
-            out.append((t.expr.value, n.lineno))
+        if isinstance(t, nodes.Compare) and len(t.ops) == 1 and t.ops[0].op == "in" and isinstance(t.expr, nodes.Const):
+            rhs = t.ops[0].expr
+            if (isinstance(rhs, nodes.Getattr) and rhs.attr == "mixin_api_methods") or (isinstance(rhs, nodes.Name) and rhs.name in aliases):
+                out.append((t.expr.value, n.lineno))
     return out
 
 
@@ -213,13 +219,30 @@ def check_rest_and_iam(report, lib: Lib):
         ok = len(loops) >= 1 and isinstance(loops[0].iter, nodes.Call) and isinstance(loops[0].iter.node, nodes.Getattr) and loops[0].iter.node.attr == "items" \
             and isinstance(loops[0].iter.node.node, nodes.Getattr) and loops[0].iter.node.node.attr == "mixin_api_signatures" and loops[0].test is None
         r3.check(ok, ts.path(f), loops[0].lineno if loops else 0, "for name, sig in api.mixin_api_signatures.items()", "every configured mixin gets its REST class, unfiltered")
-    src = ts.source(SVC + "transports/_rest_mixins_base.py.j2")
-    r3.check('api.mixin_http_options["{}".format(name)]' in src, ts.path(SVC + "transports/_rest_mixins_base.py.j2"), 0, "http options source",
+    tree = ts.parse(SVC + "transports/_rest_mixins_base.py.j2")
+    loopvar = None
+    for lp_ in tree.find_all(nodes.For):
+        if isinstance(lp_.target, nodes.Tuple) and lp_.target.items and isinstance(lp_.target.items[0], nodes.Name):
+            loopvar = lp_.target.items[0].name
+            break
+
+    def names_key(arg):
+        if isinstance(arg, nodes.Name):
+            return arg.name
+        if isinstance(arg, nodes.Call) and isinstance(arg.node, nodes.Getattr) and arg.node.attr == "format" and isinstance(arg.node.node, nodes.Const) \
+                and arg.node.node.value == "{}" and len(arg.args) == 1 and isinstance(arg.args[0], nodes.Name):
+            return arg.args[0].name
+        return None
+    gets = [g for g in tree.find_all(nodes.Getitem) if isinstance(g.node, nodes.Getattr) and g.node.attr == "mixin_http_options"
+            and isinstance(g.node.node, nodes.Name) and g.node.node.name == "api"]
+    r3.check(bool(gets) and all(names_key(g.arg) == loopvar for g in gets), ts.path(SVC + "transports/_rest_mixins_base.py.j2"), 0, "http options source",
              "REST mixins must take verb, path and body from api.mixin_http_options[name] (the YAML rule)")
     m = pm()
     ho = m.func("gapic.schema.api.API.mixin_http_options")
     r3.instance("mixin_http_options")
-    r3.check(find_match("[_H_] + list(_H_.additional_bindings)", ho.node)[0] is not None and "MixinHttpRule.try_parse_http_rule" in ast.unparse(ho.node), ho.module.path, ho.node.lineno,
+    from ..pymodel import fmatch
+    node_, bb_, _f = fmatch(m, "[MixinHttpRule.try_parse_http_rule(_X_) for _X_ in [_ANYH_, *_ANYH_.additional_bindings] if MixinHttpRule.try_parse_http_rule(_X_)]", ho)
+    r3.check(node_ is not None and bb_["_ANYH_"].endswith(".options.Extensions[annotations_pb2.http]"), ho.module.path, ho.node.lineno,
              "mixin_http_options", "each mixin's options are its YAML rule plus additional bindings")
 
     r4 = report.rule("C17.4", "add-iam-methods: three IAM methods on both clients and all gRPC transports under opts.add_iam_methods; mixin IAM under its negation", floor=10)
